@@ -199,18 +199,31 @@ def cont_project(w):
     return {k: project(v, k) for k, v in files_of(w).items() if k in SPEC_TAGS}
 
 
-def nobook(o):
-    """a projected / canonical object without the recorded selected_bands of a checkpoint (bookkeeping: information)"""
-    if o["cls"] != "chk" or "selected_bands" not in o["attr"]:
+# what set_projections writes into the checkpoint besides the .amn (centres and spreads of the projections, their number) is not
+# part of the model of band selection
+CHK_UNMODELLED = ("wannier_centers_cart", "wannier_spreads", "num_wann")
+
+
+def relevant(o, book=True):
+    """a projected / canonical object as far as band selection speaks about it; book=False: also without the recorded
+    selected_bands of a checkpoint (bookkeeping: information)"""
+    if o["cls"] != "chk":
         return o
-    return dict(o, attr={k: v for k, v in o["attr"].items() if k != "selected_bands"})
+    drop = CHK_UNMODELLED
+    if not book:
+        drop = tuple(drop) + ("selected_bands",)
+    return dict(o, attr={k: v for k, v in o["attr"].items() if k not in drop})
+
+
+def nobook(o):
+    return relevant(o, book=False)
 
 
 def same_files(a, b, book=False):
-    """two {key: canonical object}: equal up to the checkpoint's recorded selection"""
+    """two {key: canonical object}: equal (book=False: up to the checkpoint's recorded selection)"""
     if set(a) != set(b):
         return False
-    return all((a[k] if book else nobook(a[k])) == (b[k] if book else nobook(b[k])) for k in a)
+    return all(relevant(a[k], book) == relevant(b[k], book) for k in a)
 
 
 def diff_files(a, b):
